@@ -946,6 +946,8 @@ def execute(case, record_kernel=True, setup=None):
     if setup is not None:
         setup(world)
     scenario = case["scenario"]
+    if scenario.get("share_conditions") != "history":
+        SHARED_CONDITIONS.clear()        # objects are shared within this run only
     config = case.get("config") or {}
     record = Record()
     record.case = case
